@@ -2,6 +2,8 @@
 """Re-runs the registered quick check of every stored seeded change against /repo with the change
 applied (git -C /repo apply; run; git -C /repo checkout -- .) and refreshes meta.json['check'].
 Prints a table. A patch that no longer applies to the current tree is reported as stale."""
+import os as _os
+RUNNER = _os.environ.get('MAMBACHECK_BIN', './run.sh')
 import json, os, re, subprocess, glob, sys
 env = dict(os.environ, GOFLAGS='-mod=mod', GOPROXY='off', GOSUMDB='off', GOTOOLCHAIN='local')
 def sh(cmd, cwd):
@@ -25,11 +27,11 @@ for d in sorted(glob.glob('/verif/seeded/*/')):
     sh(f'git apply {d}patch.diff', '/repo')
     others = []
     try:
-        rc_chk, out_chk = sh(f'./run.sh {prop} quick', '/verif')
+        rc_chk, out_chk = sh(f'{RUNNER} {prop} quick', '/verif')
         if '--all' in sys.argv:
             for p2 in ALLP:
                 if p2 == prop: continue
-                rc2, out2 = sh(f'./run.sh {p2} quick', '/verif')
+                rc2, out2 = sh(f'{RUNNER} {p2} quick', '/verif')
                 if rc2 == 1:
                     others.append({'property': p2, 'finding_keys': re.findall(r'\[([A-Z-]+:.*?)\] ', out2)[:3]})
     finally:
